@@ -511,6 +511,10 @@ func C13(x *Ctx) []Violation {
 				}
 				for _, a := range preds[j].alts {
 					stems[a]++
+					// a name equal to a qualifier becomes <name>MoqParam: that spelling is taken as well
+					if quals[a] {
+						stems[a+"MoqParam"]++
+					}
 				}
 			}
 			openResult := false
